@@ -20,7 +20,8 @@ def server_identity():
 
 class Sandwich:
     def __init__(self, loop, inner_factory, backend="pyopenssl", log=None, client_identity=None,
-                 peername=("192.0.2.7", 40001), request_client_cert=True, server_ident=None, tls_max=None, capacity=None, captured=None):
+                 peername=("192.0.2.7", 40001), request_client_cert=True, server_ident=None, tls_max=None, capacity=None, captured=None,
+                 client_ctx=None, session=None):
         from .sim import install_loop_wall_clock
 
         install_loop_wall_clock()
@@ -70,14 +71,18 @@ class Sandwich:
             raise ValueError(backend)
         self.cin = ssl.MemoryBIO()   # server -> client ciphertext
         self.cout = ssl.MemoryBIO()  # client -> server ciphertext
-        cctx = ssl.SSLContext(ssl.PROTOCOL_TLS_CLIENT)
-        cctx.check_hostname = False
-        cctx.verify_mode = ssl.CERT_NONE
-        if tls_max == "1.2":
-            cctx.maximum_version = ssl.TLSVersion.TLSv1_2
-        if client_identity is not None:
-            cctx.load_cert_chain(client_identity.certfile, client_identity.keyfile)
-        self.client = cctx.wrap_bio(self.cin, self.cout, server_side=False, server_hostname="localhost")
+        # client_ctx / session: a client that keeps ONE context across connections and offers the previous
+        # connection's session again (resumption needs the same server context too: use captured= wiring)
+        cctx = client_ctx or ssl.SSLContext(ssl.PROTOCOL_TLS_CLIENT)
+        if client_ctx is None:
+            cctx.check_hostname = False
+            cctx.verify_mode = ssl.CERT_NONE
+            if tls_max == "1.2":
+                cctx.maximum_version = ssl.TLSVersion.TLSv1_2
+            if client_identity is not None:
+                cctx.load_cert_chain(client_identity.certfile, client_identity.keyfile)
+        self.client_ctx = cctx
+        self.client = cctx.wrap_bio(self.cin, self.cout, server_side=False, server_hostname="localhost", session=session)
         self.tcp = FakeTCP(loop, self.server_proto, peername=peername, log=self.log, sink=self.cin.write)
         if capacity is not None:
             self.tcp.capacity = capacity
